@@ -237,6 +237,18 @@ def bundled(name):
     return open(os.environ.get("VERIF_REPO", "/repo") + f"/tests/test_data/{name}", "rb").read()
 
 
+# TD (dataset, flat): every packet has the same fields (the root container is concrete and has no children): unsigned 8, little-endian signed 16
+#     with a polynomial calibrator, a 2-bit enumeration, a 1-bit boolean and a 5-bit integer.  6 + 4 bytes.
+T["TD"] = (doc(
+    types=I("A_T", 8) + I("B_T", 16, "signed", DEFCAL(POLY((2.5, 0), (0.5, 1))), order="leastSignificantByteFirst")
+    + ('<xtce:EnumeratedParameterType name="E_T"><xtce:IntegerDataEncoding sizeInBits="2" encoding="unsigned"/><xtce:EnumerationList>'
+       + "".join(f'<xtce:Enumeration label="L{v}" value="{v}"/>' for v in range(4)) + '</xtce:EnumerationList></xtce:EnumeratedParameterType>')
+    + '<xtce:BooleanParameterType name="K_T"><xtce:IntegerDataEncoding sizeInBits="1"/></xtce:BooleanParameterType>' + I("Z_T", 5),
+    params=[("A", "A_T"), ("B", "B_T"), ("E", "E_T"), ("K", "K_T"), ("Z", "Z_T")],
+    root_entries=["A", "B", "E", "K", "Z"], children="", root_abstract="false"),
+    6 + 4, "flat layout for create_dataset: 8 + 16 + 2 + 1 + 5 = 32 bits")
+
+
 def get(name):
     if name in T:
         return T[name]
@@ -402,3 +414,41 @@ def get(name):      # noqa: F811
     if name.startswith("MIX"):
         return mixed(int(name[3:]))
     return _old_get2(name)
+
+
+# ------------------------------------------------------------------------------------------------ non-default root container name
+_old_get3 = get
+ALT_ROOT = "ROOTX"
+
+
+def get(name):      # noqa: F811
+    """"R|<template>": the same document with its root container renamed (loaded / parsed with root_container_name=ALT_ROOT)"""
+    if name.startswith("R|"):
+        xml, clean, why = _old_get3(name[2:])
+        assert xml.count(b'"CCSDSPacket"') >= 1
+        return xml.replace(b'"CCSDSPacket"', b'"' + ALT_ROOT.encode() + b'"'), clean, why + f" (root container renamed to {ALT_ROOT})"
+    return _old_get3(name)
+
+
+_old_get4 = get
+
+
+def get(name):      # noqa: F811
+    """"O|<template>": the same document with the SequenceContainers of its ContainerSet written in REVERSE order (descendants before their base
+    containers, nested containers after their users): document order carries no meaning in XTCE"""
+    if name.startswith("O|"):
+        import lxml.etree as ET
+        xml, clean, why = _old_get4(name[2:])
+        root = ET.fromstring(xml)
+        cs = next(e for e in root.iter() if isinstance(e.tag, str) and e.tag.endswith("}ContainerSet"))
+        kids = [c for c in cs if isinstance(c.tag, str)]
+        for c in kids:
+            cs.remove(c)
+        for c in reversed(kids):
+            cs.append(c)
+        return ET.tostring(root, xml_declaration=True, encoding="UTF-8"), clean, why + " (ContainerSet in reverse order)"
+    return _old_get4(name)
+
+
+def root_of(name):
+    return ALT_ROOT if "R|" in name[:4] else "CCSDSPacket"
